@@ -28,7 +28,9 @@ REGISTRATION = {
             "testing/synctest, loadFn recorded) on histories of requests compared exactly with the model of its glue "
             "(filterGPUsWithoutLoadingModels, updateFreeSpace, full/partial pick, numParallel forcing: load on which "
             "GPUs with which adjusted free figures | evict | delay), with theorems that discharge the correspondence "
-            "hypothesis of the composition on that model (load_sound, load_alloc_within_reported); every clause "
+            "hypothesis of the composition on that model (load_sound, load_alloc_within_reported) and lift it to every "
+            "reachable state (history_within_total: after any history of requests, load completions and unloads the sizes "
+            "planned on a GPU for all loaded models sum to at most its total memory); every clause "
             "is also evaluated on the real results (estimator alone, and estimator on the scheduler-adjusted list).",
     "design_ref": "DESIGN.md §5 C16",
     "note": COMMON_NOTE + "Modelled, not verified: the quantities the estimator derives from the model file and "
@@ -74,6 +76,9 @@ THEOREMS = [
     "OllamaVerif.C16.load_alloc_within_reported",
     "OllamaVerif.C16.load_not_on_loading_gpu",
     "OllamaVerif.C16.effParallel_forced",
+    # every reachable state of the load path (induction over the history of requests / load completions / unloads)
+    "OllamaVerif.C16.history_within_total",
+    "OllamaVerif.C16.history_from_empty",
 ]
 # The code variant the model must mirror (0 = pinned overhead comparisons, 1 = with fix C16-W1) is detected
 # by the driver on every run by probing the real estimator with the W1 input; it is the first argument of
